@@ -248,3 +248,49 @@ fn c07_skip_optional() {
     p.skip_optional(token_of(w));
     assert!(unsafe { ADVANCES } == if k == w { 1 } else { 0 });
 }
+
+// ------------------------------------------------------------------------------------------
+// C05  the parser's loops consume input on every iteration (termination), modular: `advance` is a recorder that
+// feeds tokens from a ghost queue and counts how often it is called
+// ------------------------------------------------------------------------------------------
+static mut QUEUE: [u8; 6] = [39; 6];
+static mut QPOS: usize = 0;
+fn advance_queue<'a>(p: &mut Parser<'a>) where 'a: 'a {
+    unsafe {
+        ADVANCES += 1;
+        p.current_token = if QPOS < 6 { token_of(QUEUE[QPOS]) } else { Token::Illegal };
+        QPOS += 1;
+    }
+}
+fn block_rec<'a>(_p: &mut Parser<'a>) -> Result<BlockStmt, ParseError> where 'a: 'a {
+    unsafe { OTHER_CALLS += 1; }
+    Ok(Vec::new())
+}
+
+/// O05.2a  parse_function_expr: for EVERY token after `functie (` and every token after that, the parameter loop
+/// either consumes a token per iteration or stops with a SyntaxError - it never spins (the unwinding bound of
+/// this harness is part of the contract: a loop that does not advance fails it)
+#[kani::proof]
+#[kani::unwind(5)]
+#[kani::stub(std::fmt::format, fmt_stub)]
+#[kani::stub(Parser::advance, advance_queue)]
+#[kani::stub(Parser::parse_block_statement, block_rec)]
+fn c05_function_params_progress() {
+    let (a, b): (u8, u8) = (kani::any(), kani::any());
+    kani::assume(a <= 39 && b <= 39);
+    kani::cover!(a == 0 && b == 22);  // x ,
+    kani::cover!(a == 1);             // functie ( 1   -> error
+    unsafe { QUEUE = [24, a, b, 25, 25, 39]; QPOS = 0; ADVANCES = 0; OTHER_CALLS = 0; }
+    let mut p = parser_at(Token::Func);
+    let r = ManuallyDrop::new(p.parse_function_expr());
+    // whatever the tokens: the call returned (no spin), and every loop iteration that did not fail consumed input
+    match &*r {
+        Ok(Expr::Function { parameters, .. }) => {
+            assert!(parameters.len() <= 2);
+            assert!(unsafe { OTHER_CALLS } == 1);
+            assert!(unsafe { ADVANCES } as usize >= 3 + parameters.len());
+        }
+        Ok(_) => assert!(false),
+        Err(e) => assert!(matches!(e, ParseError::SyntaxError(_))),
+    }
+}
